@@ -166,6 +166,15 @@ def build(tier: str) -> list[Obligation]:
     obs.append(operand_ob(("INT", "STOP", "INT"), True, timeout=60))
     obs.append(operand_ob(("CHANNEL",), True, timeout=60))
     obs.append(operand_ob(("NEWLIST", "CHANNEL"), True, timeout=60))
+    # decimal text of LONGINT/LONGLONG: int(<bytes>) realises its argument, so the payload ranges over a small
+    # alphabet of the characters int() treats specially (sign, digit, blank, underscore, other) and is exhausted
+    for op in ("LONGINT", "LONGLONG"):
+        L = 4 if thorough else 3
+        pres = [f"len(y) <= {L}"] + [f"len(y) <= {k} or y[{k}] in (45, 43, 53, 32, 95, 120)" for k in range(L)]
+        body = f"data = b'\\x02' + {OPS[op]!r} + ref_int4(len(y)) + fixlen(y, {L}) + b'Q'\nreturn untrusted_load_ok(data)\n"
+        src = e1.make_module(PRELUDE, "h", "y: bytes", pres, body)
+        obs.append(Obligation(name=f"ops_{op}_text_alphabet", module_src=src, fn="h", timeout=1200 if thorough else 150,
+                              meta={"family": "operand", "ops": [op], "alphabet": "-+5 _x"}))
     # length fields that demand memory: hunting, expected to hit the known finding
     obs.append(operand_ob(("NEWLIST",), True, timeout=60, kind="hunt", bound_alloc=False))
     src = e1.make_module(PRELUDE, "h", "dummy: bool", [], "return untrusted_load_ok(b'\\x02K\\x7f\\xff\\xff\\xffQ', tolerate_alloc=False)\n")
